@@ -88,6 +88,12 @@ RIBCS = (" Overlapping calls: GribiRIBCS models AddEntry / DeleteEntry / Flush /
 for _p in ("C02", "C03", "C06", "C08", "C11"):
     CHECKS[_p]["text"] += RIBCS
     CHECKS[_p]["engine2"] = CHECKS[_p].get("engine2", CHECKS[_p]["engine"]) + "+GribiRIBCS"
+HAMMER = (" Free-running part: several goroutines call AddEntry / DeleteEntry on one RIB at once (malformed operations included) in a -race build; a race report, a crash inside gribigo, "
+          "a goroutine left blocked, or an operation that is neither acknowledged, failed nor held at quiescence (GribiRIBCS.Accounted, checked by TLC at the code's grain and evaluated by "
+          "TLC on the recorded answers) is a violation.")
+for _p in ("C11", "C12"):
+    CHECKS[_p]["text"] += HAMMER
+CHECKS["C12"]["engine2"] = CHECKS["C12"].get("engine2", CHECKS["C12"]["engine"]) + "+GribiRIBCS"
 NA = {}
 def main():
     import families
@@ -129,7 +135,7 @@ def main():
             {"name": "GribiClient", "path": "/verif/spec/GribiClient.tla", "serves_properties": ["C13", "C14"], "kind_free_text": "client library spec + GribiClient_MC + GribiClientTrace; vh client-run with scripted stub stream"},
             {"name": "GribiServerSched", "path": "/verif/spec/GribiServerSched.tla", "serves_properties": ["C04", "C05", "C11"], "kind_free_text": "handler-segment grain spec of concurrent Modify sessions and Flush on top of GribiServerCS + GribiServerSched_MC (all interleavings, schedule emission) + GribiServerSchedTrace; vh sched-run replays schedules through the server's gates"},
             {"name": "GribiRIBConc", "path": "/verif/spec/GribiRIBConc.tla", "serves_properties": ["C01", "C08"], "kind_free_text": "lock-grain spec of Flush over several network instances vs concurrent installs (linearizability) + GribiRIBConc_MC + GribiRIBConcTrace; vh lin-run records stamped concurrent histories of the real rib package"},
-            {"name": "GribiRIBCS", "path": "/verif/spec/GribiRIBCS.tla", "serves_properties": ["C02", "C03", "C06", "C08", "C11"], "kind_free_text": "critical-section grain spec of overlapping RIB calls (check / install / count / retry walk, Flush holding its locks) + GribiRIBCS_MC (scenario catalogue, all interleavings, schedule emission) + GribiRIBCSTrace; vh ribcs-run replays schedules through the gates of rib/rib.go"},
+            {"name": "GribiRIBCS", "path": "/verif/spec/GribiRIBCS.tla", "serves_properties": ["C02", "C03", "C06", "C08", "C11", "C12"], "kind_free_text": "critical-section grain spec of overlapping RIB calls (check / install / count / retry walk, Flush holding its locks) + GribiRIBCS_MC (scenario catalogue, all interleavings, schedule emission) + GribiRIBCSTrace; vh ribcs-run replays schedules through the gates of rib/rib.go"},
             {"name": "GribiElectionInd", "path": "/verif/spec/GribiElectionInd.tla", "serves_properties": ["C05"], "kind_free_text": "election core with unbounded ids; inductive invariant (ElecIsMax, PrimaryAnnouncedIt) discharged by apalache-mc (base case + induction step)"},
             {"name": "GribiGetProc", "path": "/verif/spec/GribiGetProc.tla", "serves_properties": ["C10", "C07"], "kind_free_text": "goroutine-grain spec of the Get RPC (producer holding the read lock, consumer, writer); TLC safety + liveness under weak fairness; bound through directed abandoned / slow-consumer Gets in vh srv-run"},
             {"name": "GribiModifyProc", "path": "/verif/spec/GribiModifyProc.tla", "serves_properties": ["C10", "C09"], "kind_free_text": "goroutine-grain spec of one Modify RPC (handler, receive loop, result pump, unbuffered channels, session-table lock); TLC safety + liveness; bound through directed mid-batch write failures in vh srv-run"},
